@@ -126,6 +126,19 @@ def derived(rng, x, v):
         ax = rng.randrange(nd)
         out.append((f"x.max(axis={ax})", x.max(axis=ax), v.max(axis=ax)))
         out.append((f"cumsum(axis={ax})", x.cumsum(axis=ax), v.cumsum(axis=ax)))
+    # the array combined with reductions of fused chains over OTHER (deterministic) data: several fusion groups joined by a
+    # reduction, the random leaf sitting next to sibling elementwise ops (add / mul / neg / sub ...)
+    if nd and v.size:
+        import dask_array as da
+        on = np.arange(float(3 * v.size)).reshape((3,) + v.shape) % 7
+        o = da.from_array(on, chunks=(2,) + tuple(max(1, s // 2) for s in v.shape))
+        S, Sn = ((o + 1) * 3).sum(axis=0), ((on + 1) * 3).sum(axis=0)
+        out.append(("S*2 + x", S * 2 + x, Sn * 2 + v))
+        out.append(("(S-2) + x", (S - 2) + x, (Sn - 2) + v))
+        out.append(("-S + x*3", -S + x * 3, -Sn + v * 3))
+        out.append(("x - S.max()", x - S.max(), v - Sn.max()))
+        out.append(("(S + x).sum()", (S + x).sum(), (Sn + v).sum()))
+        out.append(("where(S > 40, x, -x)", da.where(S > 40, x, -x), np.where(Sn > 40, v, -v)))
     rng.shuffle(out)
     return out
 
